@@ -3,12 +3,15 @@ C10 — FKM-nonlinear assessment with P_RAM (`Model/Assessment.lean`): batch ind
 maxima, insensitivity to non-reversal samples, N_10 ≤ N_50 ≤ N_90, monotonicity in roughness, failure
 probability and load scale.
 
-The HCM facts that other slices prove about `Model/HCM.lean` (`C05.hcm_batch_eq_single`,
-`C04.hcm_insert_nonreversal_interior`, `C04.hcm_append_nonreversal`) enter as explicit hypotheses
-(`HcmBatchEqSingle`, `HcmInsertInterior`, `HcmAppendNonreversal`: the statements of `tools/stmts/HCM.lean`, verbatim);
-the theorems that use them carry the suffix `_of_hcm_…`.
+The HCM facts that other slices prove about `Model/HCM.lean` enter the `…_of_hcm_…` theorems as explicit hypotheses
+(`HcmBatchEqSingle`, `HcmInsertInterior`, `HcmAppendNonreversal`: the statements of `tools/stmts/HCM.lean` about
+`twoPass`, the code).  They are discharged by `C05.hcm_batch_eq_single_code`, `C04.hcm_insert_nonreversal_interior_code`
+and `C04.hcm_append_nonreversal_code`, which gives the unconditional `assessment_batch_independent_PRAM` and
+`assessment_sample_insensitive`.
 -/
 import Proofs.Lemmas.Assessment
+import Proofs.C04InsertCode
+import Proofs.C05Code
 
 namespace PylifeVerif.C10
 open PylifeVerif.HCM PylifeVerif.FkmNl PylifeVerif.Assess
@@ -113,6 +116,37 @@ theorem assessment_sample_insensitive_of_hcm_insert (hi : HcmInsertInterior) (ha
     simp only [assessSingle, hid, maxAbsI_append s a z v hs hz hv]
     simp only [one] at h1
     rw [h1]
+
+/-! ### the unconditional forms (HCM facts instantiated with the code-level theorems of the C04 / C05 slices) -/
+
+theorem hcmBatchEqSingle : HcmBatchEqSingle :=
+  fun law hl L cs hc k hk => C05.hcm_batch_eq_single_code law hl L cs hc k hk
+
+theorem hcmInsertInterior : HcmInsertInterior :=
+  fun law pre post x y v hv => C04.hcm_insert_nonreversal_interior_code law pre post x y v hv
+
+theorem hcmAppendNonreversal : HcmAppendNonreversal :=
+  fun law s a z v hs hz hv hne => C04.hcm_append_nonreversal_code law s a z v hs hz hv hne
+
+/-- **Batch independence (P_RAM), unconditional**: `assessment_batch_independent_PRAM_of_hcm_batch` with
+`C05.hcm_batch_eq_single_code` (a theorem about `twoPass`, the code). -/
+theorem assessment_batch_independent_PRAM (conv : Int → α) (n : Nat)
+    (p : Params α) (t : Tables) (ht : t.SecPos) (L cs : List Int) (hc : ∀ c ∈ cs, 0 < c) (k : Nat) (hk : k < cs.length) :
+    assessBatch conv n p t L cs k = assessSingle conv n p t L (cs.getD k 1) ∧
+    ∀ beta, nMaxBearable conv p k
+        (twoPass (lawBatch n (maxAbsI (L.map (cs.headD 1 * ·))) (cs.headD 1) (cs.getD k 1) t) (batchLoads L cs)).recs beta
+      = nMaxSingle conv n p t L (cs.getD k 1) beta :=
+  assessment_batch_independent_PRAM_of_hcm_batch hcmBatchEqSingle conv n p t ht L cs hc k hk
+
+/-- **Sample insensitivity (P_RAM), unconditional**: `assessment_sample_insensitive_of_hcm_insert` with
+`C04.hcm_insert_nonreversal_interior_code` and `C04.hcm_append_nonreversal_code` (theorems about `twoPass`, the code). -/
+theorem assessment_sample_insensitive (conv : Int → α) (n : Nat) (p : Params α) (t : Tables) :
+    (∀ (pre post : List Int) (x y v : Int), ((x ≤ v ∧ v ≤ y) ∨ (y ≤ v ∧ v ≤ x)) →
+      assessSingle conv n p t (pre ++ x :: v :: y :: post) 1 = assessSingle conv n p t (pre ++ x :: y :: post) 1) ∧
+    (∀ (s : List Int) (a z v : Int), s.head? = some a → s.getLast? = some z →
+      ((a ≤ v ∧ v ≤ z) ∨ (z ≤ v ∧ v ≤ a)) → (v ≠ a ∨ v = z) →
+      assessSingle conv n p t (s ++ [v]) 1 = assessSingle conv n p t s 1) :=
+  assessment_sample_insensitive_of_hcm_insert hcmInsertInterior hcmAppendNonreversal conv n p t
 
 end generic
 
